@@ -717,5 +717,12 @@ def r12(F, R):
     c10.r2(F, R)
 
 
-RULES = [("R12", r12, None), ("R1", r1, None), ("R2", lambda F, R: r2(F, R) and None, None), ("R3", r3, None), ("R4", r4, None), ("R5", r5, None), ("R6", r6, None),
+def r13(F, R):
+    """"A step with no matching definition is Skipped, one matching several definitions is Failed as ambiguous": the look-up
+    answers `Err(ambiguous)` iff more than one definition of the collection matches, every definition being a candidate (= C17.R2)."""
+    from . import c17
+    c17.r2(F, R)
+
+
+RULES = [("R13", r13, None), ("R12", r12, None), ("R1", r1, None), ("R2", lambda F, R: r2(F, R) and None, None), ("R3", r3, None), ("R4", r4, None), ("R5", r5, None), ("R6", r6, None),
          ("R7", r7, None), ("R8", r8, None), ("R9", r9, None), ("R10", r10, None), ("R11", r11, None)]
